@@ -80,6 +80,13 @@ func corsJudge(cfg corsCfg, q corsReq, status int, h map[string][]string) (c11, 
 	servedMethod := contains(corsRouteAllow, q.ACRM)
 	anyO, anyH := hasAny(cfg.Origins), hasAny(cfg.AllowH)
 	headersAllowed := true
+	// an empty element ("a,,b") is neither inside nor outside the list: either answer is accepted
+	emptyElement := false
+	for _, t := range strings.Split(q.ACRH, ",") {
+		if strings.TrimSpace(t) == "" && strings.TrimSpace(q.ACRH) != "" {
+			emptyElement = true
+		}
+	}
 	if !anyH {
 		for _, t := range tokenSet(q.ACRH) {
 			ok := false
@@ -110,6 +117,7 @@ func corsJudge(cfg corsCfg, q corsReq, status int, h map[string][]string) (c11, 
 	case preflight && !headersAllowed:
 		mustNone = "preflight asks for a header outside the allowed list"
 	}
+	undecided := preflight && servedMethod && headersAllowed && emptyElement && !anyH
 	if hasACAO {
 		if mustNone != "" {
 			c11 = append(c11, fmt.Sprintf("%s=%q sent although %s", hACAO, acao, mustNone))
@@ -133,7 +141,7 @@ func corsJudge(cfg corsCfg, q corsReq, status int, h map[string][]string) (c11, 
 	if !preflight && (hasACAM || hasACAH || hasACMA) {
 		c12 = append(c12, "a request that is not a preflight carries preflight-only headers")
 	}
-	if !grant {
+	if !grant || undecided {
 		return
 	}
 	if !hasACAO {
@@ -194,15 +202,28 @@ func corsJudge(cfg corsCfg, q corsReq, status int, h map[string][]string) (c11, 
 	return
 }
 
+// properPrefix returns a non-empty proper prefix of a header name (the name itself when it has one byte).
+func properPrefix(h string) string {
+	if len(h) < 2 {
+		return h
+	}
+	n := len(h) - 3
+	if n < 1 {
+		n = 1
+	}
+	return h[:n]
+}
+
 // ---- class enumeration ----
 
 func corsConfigs() []corsCfg {
 	var out []corsCfg
 	origins := map[string][]string{"none": nil, "any": {"*"}, "one": {"https://a.example"}, "several": {"https://a.example", "https://b.example", "null"}, "any+others": {"https://a.example", "*"}}
-	headers := map[string][]string{"none": nil, "any": {"*"}, "list": {"Content-Type", "X-Token"}}
+	headers := map[string][]string{"none": nil, "any": {"*"}, "list": {"Content-Type", "X-Token"},
+		"mixed-case-list": {"X-Token-Id", "authorization", "Content-Type", "x-lower"}}
 	exposed := map[string][]string{"none": nil, "list": {"X-Exp", "X-Other"}}
 	for _, on := range []string{"none", "any", "one", "several", "any+others"} {
-		for _, hn := range []string{"none", "any", "list"} {
+		for _, hn := range []string{"none", "any", "list", "mixed-case-list"} {
 			for _, en := range []string{"none", "list"} {
 				for _, ma := range []int{0, -1, 3600} {
 					for _, cr := range []bool{false, true} {
@@ -234,12 +255,40 @@ func corsRequests(cfg corsCfg, r *ref.R, random bool) []corsReq {
 		val  string
 	}
 	originClasses := []oc{{"absent", false, ""}, {"listed", true, listedOrigin}, {"unlisted", true, rs("https://evil.example")}, {"case-differs", true, "HTTPS://A.EXAMPLE"}, {"null", true, "null"}, {"star", true, "*"}}
-	acrhClasses := map[string]string{"absent": "", "as-configured": "Content-Type", "lower-case": "content-type, x-token", "mixed-spaces": " X-Token ,  CONTENT-TYPE", "one-disallowed": "Content-Type, " + rs("X-Evil")}
+	// requested-header classes are derived from the configured list (cfgH falls back to a fixed list for none/any)
+	cfgH := cfg.AllowH
+	if len(cfgH) == 0 || hasAny(cfgH) {
+		cfgH = []string{"Content-Type", "X-Token"}
+	}
+	pickH := func(i int) string {
+		if random {
+			return cfgH[r.Intn(len(cfgH))]
+		}
+		return cfgH[i%len(cfgH)]
+	}
+	allLower := strings.ToLower(strings.Join(cfgH, ", "))
+	longest := cfgH[0]
+	for _, h := range cfgH {
+		if len(h) > len(longest) {
+			longest = h
+		}
+	}
+	acrhClasses := map[string]string{
+		"absent":               "",
+		"as-configured":        pickH(0),
+		"lower-case":           allLower,
+		"each-upper-case":      strings.ToUpper(pickH(1)) + "," + strings.ToUpper(pickH(2)) + "," + strings.ToUpper(pickH(3)),
+		"mixed-spaces":         " " + pickH(1) + " ,  " + strings.ToUpper(pickH(0)),
+		"one-disallowed":       pickH(0) + ", " + rs("X-Evil"),
+		"prefix-of-allowed":    properPrefix(longest),
+		"extension-of-allowed": pickH(0) + "-More",
+		"empty-element":        pickH(0) + ",," + pickH(1),
+	}
 	for _, m := range []string{"GET", "HEAD", "POST", "OPTIONS", "PUT", "BOGUS"} {
 		for _, pc := range []string{"live", "notfound", "star"} {
 			for _, o := range originClasses {
 				for _, acrm := range []string{"", "GET", "POST", "DELETE", "get"} {
-					for _, hn := range []string{"absent", "as-configured", "lower-case", "mixed-spaces", "one-disallowed"} {
+					for _, hn := range []string{"absent", "as-configured", "lower-case", "each-upper-case", "mixed-spaces", "one-disallowed", "prefix-of-allowed", "extension-of-allowed", "empty-element"} {
 						out = append(out, corsReq{Method: m, PathClass: pc, HasOrigin: o.has, Origin: o.val, ACRM: acrm, ACRH: acrhClasses[hn],
 							class: fmt.Sprintf("%s %s origin=%s acrm=%q acrh=%s", m, pc, o.name, acrm, hn)})
 					}
@@ -254,6 +303,16 @@ func runCORS(c *Ctx, prop string) {
 	cfgs := corsConfigs()
 	cfg := cfgs[c.Case%len(cfgs)]
 	random := c.Case >= len(cfgs) // the first pass instantiates every class canonically, later passes randomly
+	if random && len(cfg.AllowH) > 0 && !hasAny(cfg.AllowH) {
+		// a random allow-list: 1-6 names in random spelling and order (unsorted, mixed case, names that are prefixes of each other)
+		pool := []string{"Content-Type", "X-Token", "X-Token-Id", "Authorization", "X", "x-a", "Accept-Language", "X-Requested-With", "If-Match", "a"}
+		ref.Shuffle(c.R, pool)
+		cfg.AllowH = nil
+		for _, h := range pool[:c.R.Range(1, 6)] {
+			cfg.AllowH = append(cfg.AllowH, randCase(c.R, h))
+		}
+		cfg.class += fmt.Sprintf(" allowH=%v", cfg.AllowH)
+	}
 	env := mon.NewEnv()
 	r := env.NewRouter("r", mux.WithCORS(cfg.Origins, cfg.AllowH, cfg.Exposed, cfg.MaxAge, cfg.Creds))
 	r.Handle("/c/{id}", env.NewHnd(mon.KRoute, "/c/{id}"), nil, "GET", "POST")
@@ -348,7 +407,7 @@ func init() {
 		}
 		return n * 2
 	}
-	rule := "the class product is enumerated completely: " + fmt.Sprint(n) + " configuration classes (origins none/any/one/several/any+others x allowed headers none/any/list x exposed x max-age 0/-1/n x credentials, minus the rejected '*'+credentials) x 2700 request classes (6 methods x 3 paths x 6 origin classes x 5 Access-Control-Request-Method classes x 5 Access-Control-Request-Headers classes incl. lower-case and spaced lists); first pass canonical strings, further passes random instantiations; " +
+	rule := "the class product is enumerated completely: " + fmt.Sprint(n) + " configuration classes (origins none/any/one/several/any+others x allowed headers none/any/list/mixed-case unsorted list x exposed x max-age 0/-1/n x credentials, minus the rejected '*'+credentials) x 4860 request classes (6 methods x 3 paths x 6 origin classes x 5 Access-Control-Request-Method classes x 9 Access-Control-Request-Headers classes derived from the configured list: as configured, lower/upper case, spaced lists, one disallowed, proper prefix / extension of an allowed name, empty element); first pass canonical strings, further passes random instantiations; " +
 		"non-trivial (distinct) = every (configuration class, request class, concrete strings) triple"
 	Register(&Engine{
 		ID: "C11", Cases: cases, Anchors: []string{"options.go:cors.handle", "options.go:cors.headerIsAllowed", "options.go:cors.sanitize"}, Run: func(c *Ctx) { runCORS(c, "C11") }, Directed: corsDirected("C11"), Rule: rule, Exhaustive: true,
